@@ -106,7 +106,7 @@ func c14Build(tier string) []c14Resp {
 	return set
 }
 
-var c14Kinds = []string{"eof", "eof-with-data", "reset", "timeout", "transient", "transient-eof", "eof-gap"}
+var c14Kinds = []string{"eof", "eof-with-data", "reset", "timeout", "transient", "transient-eof", "eof-gap", "reset-with-data"}
 
 const c14WriteRuns = 400
 
@@ -152,7 +152,7 @@ func (c14) Gen(r *Rand, idx int, tier string) interface{} {
 			if idx%9 == 4 && !strings.HasPrefix(p.Kind, "transient") && p.Kind != "eof-gap" && p.PollMs == 0 {
 				p.Bystander = true
 			}
-			if idx%6 == 1 && p.Kind != "eof-with-data" && !strings.HasPrefix(p.Kind, "transient") && p.Kind != "eof-gap" {
+			if idx%6 == 1 && p.Kind != "eof-with-data" && p.Kind != "reset-with-data" && !strings.HasPrefix(p.Kind, "transient") && p.Kind != "eof-gap" {
 				p.FailDelayMs = []int{500, 1000, 2000, 10000}[(idx/6)%4] * p.ReadTimeoutS / 2
 			}
 			return p
@@ -223,6 +223,9 @@ func (c14) Run(plan interface{}, schedSeed uint64, replay []simrt.Choice, lenien
 	switch p.Kind {
 	case "eof-with-data":
 		withData = true
+	case "reset-with-data":
+		// the io.Reader contract allows it: the last bytes that arrived and the error in one Read
+		term, withData = simrt.TermReset, true
 	case "reset":
 		term = simrt.TermReset
 	case "timeout":
@@ -758,5 +761,5 @@ func c14RunWrite(p *c14Plan, schedSeed uint64, replay []simrt.Choice, lenient, k
 
 // RequiredProbes: a batch in which one of these never fired explored nothing of that kind (exit 2, not a pass).
 func (c14) RequiredProbes() []string {
-	return []string{"kind:eof", "kind:eof-with-data", "kind:reset", "kind:timeout", "kind:transient", "kind:transient-eof", "kind:eof-gap", "eof-gap-fired", "kind:write"}
+	return []string{"kind:eof", "kind:eof-with-data", "kind:reset", "kind:timeout", "kind:transient", "kind:transient-eof", "kind:eof-gap", "eof-gap-fired", "kind:reset-with-data", "kind:write"}
 }
